@@ -14,18 +14,18 @@ PROP_MODULES = {
     'C10': ['obligations.queue_ops', 'obligations.e2_jobs', 'obligations.persist_ops'],
     'C01': ['obligations.e2_jobs', 'obligations.cache_ops', 'obligations.queue_ops'],
     'C02': ['obligations.e2_jobs', 'obligations.cache_ops'],
-    'C13': ['obligations.e2_jobs', 'obligations.fanout_ops'],
+    'C13': ['obligations.e2_jobs', 'obligations.fanout_ops', 'obligations.persistence_ops'],
     'C06': ['obligations.block_ops', 'obligations.persist_ops'],
     'C18': ['obligations.e2_jobs', 'obligations.persistence_ops', 'obligations.fanout_ops'],
     'C15': ['obligations.recipes_ops'],
     'C20': ['obligations.recipes_ops'],
     'C19': ['obligations.django_ops'],
-    'C17': ['obligations.check_ops'],
+    'C17': ['obligations.check_ops', 'obligations.fanout_ops'],
     'C11': ['obligations.persist_ops'],
     'C12': ['obligations.persist_ops'],
     'C05': ['obligations.conc_ops', 'obligations.block_ops', 'obligations.cache_ops', 'obligations.persist_ops', 'obligations.recipes_ops'],
-    'C07': ['obligations.cache_ops', 'obligations.queue_ops', 'obligations.persist_ops', 'obligations.block_ops'],
-    'C14': ['obligations.cache_ops', 'obligations.queue_ops', 'obligations.fanout_ops'],
+    'C07': ['obligations.cache_ops', 'obligations.queue_ops', 'obligations.persist_ops', 'obligations.block_ops', 'obligations.persistence_ops'],
+    'C14': ['obligations.cache_ops', 'obligations.queue_ops', 'obligations.fanout_ops', 'obligations.block_ops'],
     'C16': ['obligations.e2_jobs', 'obligations.memo_ops'],
 }
 for _p in ('C04', 'C08'):
